@@ -35,10 +35,25 @@ P_C11_Partition    == Partition(vs)
 P_C11_TryIntoExact == TryIntoExact(vs)
 IsTable == [a \in 1..Len(vs) |-> [x \in 1..Len(vs) |-> DocIs(vs, a, x)]]
 Targets == TargetTypes(vs)
+\* the naming the texts are evaluated under (the replay renames a share of the enums and re-renders from `groups`)
+EnumName == "E"
+Names == <<[id |-> "Foo", fn |-> "foo"], [id |-> "FooBar", fn |-> "foo_bar"], [id |-> "Ab", fn |-> "ab"], [id |-> "Quux", fn |-> "quux"]>>
+Texts == [unwrapPanic |-> [a \in 1..Len(vs) |-> [x \in 1..Len(vs) |-> [f \in {"owned", "ref", "ref_mut"} |->
+                              DocUnwrapPanic(EnumName, Names, a, x, f)]]],
+          tryUnwrap   |-> [a \in 1..Len(vs) |-> [x \in 1..Len(vs) |-> [f \in {"owned", "ref", "ref_mut"} |->
+                              DocTryUnwrapText(EnumName, Names, a, x, f)]]],
+          tryInto     |-> [T \in Targets |-> DocTryIntoText(Names, vs, T)],
+          groups      |-> [T \in Targets |-> Group(vs, T)]]
+\* every live variant is in exactly one group, and groups keep declaration order
+P_C11_Groups == \A T \in Targets : LET g == Group(vs, T) IN
+                    /\ \A n \in 1..(Len(g) - 1) : g[n] < g[n + 1]
+                    /\ \A i \in Live(vs) : (\E n \in 1..Len(g) : g[n] = i) <=> LiveTys(vs[i]) = T
 Emit == EmitCases /\ Live(vs) # {} =>
     PrintT(<<"CASE", ToJson([vs |-> vs, generic |-> generic, formsAttr |-> forms, forms |-> DocForms(forms), targets |-> Targets,
                              is |-> IsTable,
                              unwrap |-> [a \in 1..Len(vs) |-> [x \in 1..Len(vs) |-> DocUnwrap(vs, a, x)[1]]],
                              liveIdx |-> [a \in 1..Len(vs) |-> LiveIdx(vs[a])],
-                             okTargets |-> [a \in 1..Len(vs) |-> {T \in Targets : DocTryInto(vs, a, T)[1] = "ok"}]])>>)
+                             okTargets |-> [a \in 1..Len(vs) |-> {T \in Targets : DocTryInto(vs, a, T)[1] = "ok"}],
+                             texts |-> [unwrapPanic |-> Texts.unwrapPanic, tryUnwrap |-> Texts.tryUnwrap,
+                                        tryInto |-> {<<T, Texts.tryInto[T], Texts.groups[T]>> : T \in Targets}]])>>)
 =============================================================================
